@@ -98,6 +98,7 @@ class Ctx(object):
         known = load_known()
         self.open_signatures = {e["signature"]: e for e in known.get("open", []) if e["property"] == prop_id}
         self.strict = False  # strict sub-domain: no excusal permitted
+        self.failed = False
 
     # ---- seeds -----------------------------------------------------------------
     def hseed(self, *salt):
@@ -124,6 +125,9 @@ class Ctx(object):
 
     # ---- accounting ------------------------------------------------------------
     def out_of_time(self):
+        # once a violation was raised the budget no longer applies: Hypothesis must be able to replay and shrink it
+        if self.failed:
+            return False
         return self.budget_s is not None and (time.monotonic() - self.t0) > self.budget_s
 
     def case(self, case):
@@ -147,6 +151,7 @@ class Ctx(object):
         if not self.strict and signature in self.open_signatures:
             self.excused[signature] = self.excused.get(signature, 0) + 1
             return False
+        self.failed = True
         raise Violation(signature, detail, case if case is not None else self.last_case)
 
     def check(self, cond, signature, detail="", case=None):
